@@ -115,15 +115,19 @@ def key_modulo(rec, rename):
 
 
 def overlap_program(rng):
-    """`mn REG, {x}` vs `mn {r}, {x}` with a symbol named REG defined: the literal rule must win."""
+    """`mn REG, {x}` vs `mn {r}, {x}` with a symbol named REG defined: the literal rule must win, however the two
+    patterns are spaced (blanks written in a pattern are required in the instruction; they are not literal text and
+    must not weigh in the precedence)."""
     reg = rng.choice(["a", "b", "x", "hl", "sp"])
     mn = rng.choice(["ld", "mov", "op"])
     val = rng.randint(0, 200)
     arg = rng.randint(0, 255)
     style = rng.choice(["const", "label"])
+    blank = lambda: rng.choice(["", "", " ", "  "])
+    b = [blank(), blank(), blank(), blank()] if rng.random() < 0.6 else ["", " ", "", " "]
     lines = ["#ruledef", "{",
-             "    %s %s, {x: u8} => 0x01 @ x" % (mn, reg),
-             "    %s {r: u8}, {x: u8} => 0x02 @ r @ x" % mn,
+             "    %s %s%s,%s{x: u8} => 0x01 @ x" % (mn, reg, b[0], b[1]),
+             "    %s {r: u8}%s,%s{x: u8} => 0x02 @ r @ x" % (mn, b[2], b[3]),
              "}"]
     if rng.random() < 0.5:
         lines[2], lines[3] = lines[3], lines[2]
@@ -132,11 +136,13 @@ def overlap_program(rng):
     sp = rng.choice([" ", "  ", "\t"])
     rg = reg.upper() if rng.random() < 0.5 else reg
     m = mn.upper() if rng.random() < 0.3 else mn
-    lines.append("%s%s%s%s,%s%d" % (m, sp, rg, rng.choice(["", " "]), rng.choice([" ", "  ", "\t", " \t"]), arg))
+    before = rng.choice([" ", "  ", "\t"]) if (b[0] or b[2]) else rng.choice(["", " "])
+    after = rng.choice([" ", "  ", "\t", " \t"])
+    lines.append("%s%s%s%s,%s%d" % (m, sp, rg, before, after, arg))
     if style == "label":
         lines.append("%s:" % reg)
     # an explicit expression use of the symbol still works through the other rule
-    lines.append("%s (%s), %d" % (mn, reg, arg))
+    lines.append("%s (%s)%s,%s%d" % (mn, reg, " " if b[2] else rng.choice(["", " "]), after, arg))
     want = "01%02x" % arg
     symval = val if style == "const" else 2
     want += "02%02x%02x" % (symval, arg)
